@@ -38,8 +38,8 @@ ASSUMPTIONS = [
     "NumPy/SciPy linear algebra trusted; physical constants (h, c, k, m_u) are written out in the harness (CODATA 2018)",
     "Franck-Condon oracle: grid integration for 1 and 2 modes; larger systems are compared at the level of the "
     "Gaussian state implied by x' = J x + delta",
-    "photon-number-resolved samples containing a count >= 5 (the default truncation of The Walrus' sampler, a third-party "
-    "approximation) are saturated and not judged for conservation",
+    "photon-number-resolved samples with more than 5 photons (the default per-mode truncation of The Walrus' chain-rule "
+    "sampler, a third-party approximation) are not judged for conservation / parity",
     "sampling functions are checked for conservation laws and shapes only (no distributional verdict here; "
     "distributions of samplers are C06's subject)",
 ]
@@ -50,7 +50,7 @@ REQUIRED_MONITORS = ["embed.jacobian", "vgbs.A", "A_to_cov", "vgbs.moments", "pr
                      "TimeEvolution", "dynamics.conservation", "dynamics.premeasure-state", "vibronic.sample-state",
                      "marginals"]
 
-WALRUS_CUTOFF = 5  # default Fock truncation of thewalrus.samples.hafnian_sample_state (counts >= 5 are saturated)
+WALRUS_CUTOFF = 5  # default per-mode truncation of thewalrus.samples.hafnian_sample_state
 
 # CODATA 2018 (exact SI values where defined)
 H = 6.62607015e-34
@@ -555,7 +555,7 @@ def run_vgbs(case, rep, V):
             out = np.asarray(out)
             if out.min() < 0 or (thr and out.max() > 1):
                 V("VGBS.generate_samples", "sample-domain", "sample values outside the detector's range: %s" % out.tolist())
-            if not thr and np.any((out.sum(axis=1) % 2 == 1) & (out.max(axis=1) < WALRUS_CUTOFF)):
+            if not thr and np.any((out.sum(axis=1) % 2 == 1) & (out.sum(axis=1) <= WALRUS_CUTOFF)):
                 V("VGBS.generate_samples", "odd-photon-number", "a lossless pure GBS state produced an odd total: %s" % out.tolist())
 
 
@@ -953,10 +953,11 @@ def run_dynamics(case, rep, V):
         V("sample_tmsv", "sample-shape", "shape of samples %s" % (np.shape(s),))
     else:
         for x in s:
-            if max(x) >= WALRUS_CUTOFF:
-                # The Walrus' chain-rule sampler lumps ">= cutoff" into its last bin: a saturated count is only a
-                # lower bound, so conservation cannot be judged on this sample
-                rep.observe("saturated-sample(not judged)")
+            if max(sum(x[:n]), sum(x[n:])) > WALRUS_CUTOFF:
+                # The Walrus' chain-rule sampler renormalises every conditional distribution over 0..cutoff; when
+                # conservation would require a count above the cutoff the conditional is 0/0 and the drawn value is
+                # noise.  Such samples (more than `cutoff` photons in one half) cannot be judged.
+                rep.observe("sample-beyond-sampler-cutoff(not judged)")
                 continue
             if loss == 0 and sum(x[:n]) != sum(x[n:]):
                 V("sample_tmsv", "pair-number-not-conserved", "sample %s: %d photons in the evolved half, %d in the "
